@@ -162,6 +162,15 @@ impl<'de> Deserialize<'de> for Plain64 {
     }
 }
 
+/// what the loaded value is good for: the public half a loaded secret key derives (empty for the other types)
+fn model_derived(ty: u8, canon: Option<&[u8]>) -> Vec<u8> {
+    match (ty, canon) {
+        (6, Some(c)) if c.len() == 32 => refmodel::eddsa::public_key(&refmodel::arr32(c)).to_vec(),
+        (10, Some(c)) if c.len() == 32 => refmodel::x25519::x25519(&refmodel::arr32(c), &refmodel::x25519::basepoint_u()).to_vec(),
+        _ => Vec::new(),
+    }
+}
+
 pub fn model_apply(st: &Step) -> Out {
     let mut o = Obs::new();
     match st {
@@ -174,8 +183,15 @@ pub fn model_apply(st: &Step) -> Out {
         Step::Load { ty, fmt, stream } => {
             let expect = plain_load(*ty, *fmt, &stream.0).and_then(|p| native_model(*ty, &p));
             o.f("ok", expect.is_some());
-            o.b("val", &expect.unwrap_or_default());
+            let val = expect.clone().unwrap_or_default();
+            o.b("val", &val);
             o.f("repr_ok", true);
+            let der = model_derived(*ty, expect.as_deref());
+            o.b("derived", &der);
+            // the same record read into an existing value of the type (serde's deserialize_in_place)
+            o.f("inplace_ok", expect.is_some());
+            o.b("inplace_val", &val);
+            o.b("inplace_derived", &der);
         }
         Step::SimFmt { ty, v, shape, len, extra, err_at, tk: _ } => {
             let n = (*len as usize).min(v.0.len());
@@ -183,35 +199,40 @@ pub fn model_apply(st: &Step) -> Out {
             let want = payload_len(*ty);
             let bytes_ty = is_bytes_type(*ty);
             let err = *err_at as usize;
+            let ty_ = *ty;
+            let fin = |o: &mut Obs, e: Option<Vec<u8>>| {
+                o.f("ok", e.is_some());
+                o.b("val", &e.clone().unwrap_or_default());
+                o.b("derived", &model_derived(ty_, e.as_deref()));
+                o.f("inplace_ok", e.is_some());
+                o.b("inplace_val", &e.clone().unwrap_or_default());
+            };
             if *shape == 0 {
                 // a sequence: `n` elements of the value, then `extra` trailing ones; an injected error at index err
                 let total = n + *extra as usize;
                 if err < want.min(total) || n < want {
-                    o.f("ok", false);
-                    o.b("val", &[]);
+                    fin(&mut o, None);
                 } else if total > want {
                     // over-long input must be rejected (by the type or by the format's end check)
-                    o.f("ok", false);
-                    o.b("val", &[]);
+                    fin(&mut o, None);
                 } else if err == want && bytes_ty {
                     // exactly enough elements, then an error where the end of the sequence should be:
                     // failing is right, succeeding is tolerable (nothing wrong was returned)
                     o.any("ok");
                     o.any("val");
+                    o.any("derived");
+                    o.any("inplace_ok");
+                    o.any("inplace_val");
                     return Out::Obs(o);
                 } else {
-                    let e = native_model(*ty, delivered);
-                    o.f("ok", e.is_some());
-                    o.b("val", &e.unwrap_or_default());
+                    fin(&mut o, native_model(*ty, delivered));
                 }
             } else if bytes_ty {
                 let e = if err == 0 { None } else { native_model(*ty, delivered) };
-                o.f("ok", e.is_some());
-                o.b("val", &e.unwrap_or_default());
+                fin(&mut o, e);
             } else {
                 // tuple-shaped types are not fed from byte strings
-                o.f("ok", false);
-                o.b("val", &[]);
+                fin(&mut o, None);
             }
         }
         _ => return Out::Skip,
@@ -236,6 +257,14 @@ enum Val {
 }
 
 impl Val {
+    /// the public half a secret key derives, as the loaded object itself reports it
+    fn derived(&self) -> Vec<u8> {
+        match self {
+            Val::Sk(k) => k.verifying_key().to_bytes().to_vec(),
+            Val::XSec(s) => x25519_dalek::PublicKey::from(s).to_bytes().to_vec(),
+            _ => Vec::new(),
+        }
+    }
     fn canon(&self) -> Vec<u8> {
         match self {
             Val::Scalar(s) => s.to_bytes().to_vec(),
@@ -312,14 +341,65 @@ fn typed<'de, D: de::Deserializer<'de>>(ty: u8, d: D) -> Result<Val, D::Error> {
     })
 }
 
+/// an existing, unrelated value of each type for `deserialize_in_place` to overwrite
+fn resident(ty: u8) -> Val {
+    let sk = SigningKey::from_bytes(&[7u8; 32]);
+    match ty {
+        0 => Val::Scalar(Scalar::from(0x1234_5678u64)),
+        1 => Val::Ed(curve25519_dalek::constants::ED25519_BASEPOINT_POINT),
+        2 => Val::CEd(curve25519_dalek::constants::ED25519_BASEPOINT_COMPRESSED),
+        3 => Val::Ris(curve25519_dalek::constants::RISTRETTO_BASEPOINT_POINT),
+        4 => Val::CRis(curve25519_dalek::constants::RISTRETTO_BASEPOINT_COMPRESSED),
+        5 => Val::Mont(curve25519_dalek::constants::X25519_BASEPOINT),
+        6 => Val::Sk(sk),
+        7 => Val::Vk(sk.verifying_key()),
+        8 => Val::Sig(Signature::from_bytes(&[3u8; 64])),
+        9 => Val::XPub(x25519_dalek::PublicKey::from([9u8; 32])),
+        _ => Val::XSec(x25519_dalek::StaticSecret::from([5u8; 32])),
+    }
+}
+
+/// the library's Deserialize impl asked to overwrite an existing value
+fn typed_in_place<'de, D: de::Deserializer<'de>>(ty: u8, d: D) -> Result<Val, D::Error> {
+    let mut place = resident(ty);
+    match &mut place {
+        Val::Scalar(x) => Deserialize::deserialize_in_place(d, x)?,
+        Val::Ed(x) => Deserialize::deserialize_in_place(d, x)?,
+        Val::CEd(x) => Deserialize::deserialize_in_place(d, x)?,
+        Val::Ris(x) => Deserialize::deserialize_in_place(d, x)?,
+        Val::CRis(x) => Deserialize::deserialize_in_place(d, x)?,
+        Val::Mont(x) => Deserialize::deserialize_in_place(d, x)?,
+        Val::Sk(x) => Deserialize::deserialize_in_place(d, x)?,
+        Val::Vk(x) => Deserialize::deserialize_in_place(d, x)?,
+        Val::Sig(x) => Deserialize::deserialize_in_place(d, x)?,
+        Val::XPub(x) => Deserialize::deserialize_in_place(d, x)?,
+        Val::XSec(x) => Deserialize::deserialize_in_place(d, x)?,
+    }
+    Ok(place)
+}
+
 fn typed_load(ty: u8, fmt: u8, stream: &[u8]) -> Option<Val> {
+    typed_load_with(ty, fmt, stream, false)
+}
+
+fn typed_load_with(ty: u8, fmt: u8, stream: &[u8], in_place: bool) -> Option<Val> {
     if fmt != 1 {
         use bincode::Options;
         let base = bincode::options().reject_trailing_bytes().with_limit(1 << 16);
+        macro_rules! go {
+            ($d:expr) => {{
+                let mut d = $d;
+                if in_place {
+                    typed_in_place(ty, &mut d).ok()?
+                } else {
+                    typed(ty, &mut d).ok()?
+                }
+            }};
+        }
         let v = match fmt {
-            2 => typed(ty, &mut bincode::Deserializer::from_slice(stream, base.with_varint_encoding().with_little_endian())).ok()?,
-            3 => typed(ty, &mut bincode::Deserializer::from_slice(stream, base.with_fixint_encoding().with_big_endian())).ok()?,
-            _ => typed(ty, &mut bincode::Deserializer::from_slice(stream, base.with_fixint_encoding().with_little_endian())).ok()?,
+            2 => go!(bincode::Deserializer::from_slice(stream, base.with_varint_encoding().with_little_endian())),
+            3 => go!(bincode::Deserializer::from_slice(stream, base.with_fixint_encoding().with_big_endian())),
+            _ => go!(bincode::Deserializer::from_slice(stream, base.with_fixint_encoding().with_little_endian())),
         };
         // reject_trailing_bytes is enforced by Options::deserialize, not by a bare Deserializer: the trusted byte
         // extractor (same options, strict) must have consumed the whole stream
@@ -330,7 +410,7 @@ fn typed_load(ty: u8, fmt: u8, stream: &[u8]) -> Option<Val> {
         }
     } else {
         let mut d = serde_json::Deserializer::from_slice(stream);
-        let v = typed(ty, &mut d).ok()?;
+        let v = if in_place { typed_in_place(ty, &mut d).ok()? } else { typed(ty, &mut d).ok()? };
         d.end().ok()?;
         Some(v)
     }
@@ -378,8 +458,13 @@ pub fn real_apply(st: &Step) -> Out {
                 }
                 _ => true,
             };
-            o.b("val", &v.map(|v| v.canon()).unwrap_or_default());
+            o.b("val", &v.as_ref().map(|v| v.canon()).unwrap_or_default());
             o.f("repr_ok", repr_ok);
+            o.b("derived", &v.as_ref().map(|v| v.derived()).unwrap_or_default());
+            let w = typed_load_with(*ty, *fmt, &stream.0, true);
+            o.f("inplace_ok", w.is_some());
+            o.b("inplace_val", &w.as_ref().map(|v| v.canon()).unwrap_or_default());
+            o.b("inplace_derived", &w.as_ref().map(|v| v.derived()).unwrap_or_default());
         }
         Step::SimFmt { ty, v, shape, len, extra, err_at, tk } => {
             let n = (*len as usize).min(v.0.len());
@@ -387,14 +472,23 @@ pub fn real_apply(st: &Step) -> Out {
             for i in 0..*extra {
                 items.push(if *tk == 1 { Item::Unparsable } else { Item::Byte(i as u8) });
             }
-            let mut de = SimDe { shape: *shape, items, pos: 0, err_at: *err_at as usize, payload: v.0[..n].to_vec() };
+            let mut de = SimDe { shape: *shape, items: items.clone(), pos: 0, err_at: *err_at as usize, payload: v.0[..n].to_vec() };
             let r = typed(*ty, &mut de);
             let ok = match &r {
                 Ok(_) => de.finish().is_ok(),
                 Err(_) => false,
             };
             o.f("ok", ok);
-            o.b("val", &if ok { r.ok().unwrap().canon() } else { Vec::new() });
+            o.b("val", &if ok { r.as_ref().ok().unwrap().canon() } else { Vec::new() });
+            o.b("derived", &if ok { r.as_ref().ok().unwrap().derived() } else { Vec::new() });
+            let mut de = SimDe { shape: *shape, items, pos: 0, err_at: *err_at as usize, payload: v.0[..n].to_vec() };
+            let r = typed_in_place(*ty, &mut de);
+            let ok = match &r {
+                Ok(_) => de.finish().is_ok(),
+                Err(_) => false,
+            };
+            o.f("inplace_ok", ok);
+            o.b("inplace_val", &if ok { r.ok().unwrap().canon() } else { Vec::new() });
         }
         _ => return Out::Skip,
     }
@@ -512,6 +606,22 @@ impl<'de, 'a> de::Deserializer<'de> for &'a mut SimDe {
 }
 
 // ------------------------------------------------------------------ fault enumeration on the stored stream
+
+fn base64(v: &[u8]) -> String {
+    const A: &[u8; 64] = b"ABCDEFGHIJKLMNOPQRSTUVWXYZabcdefghijklmnopqrstuvwxyz0123456789+/";
+    let mut out = String::new();
+    for ch in v.chunks(3) {
+        let n = (ch[0] as u32) << 16 | (*ch.get(1).unwrap_or(&0) as u32) << 8 | *ch.get(2).unwrap_or(&0) as u32;
+        for i in 0..4 {
+            if i <= ch.len() {
+                out.push(A[(n >> (18 - 6 * i) & 63) as usize] as char);
+            } else {
+                out.push('=');
+            }
+        }
+    }
+    out
+}
 
 fn json_tokens(v: &[u8]) -> Vec<String> {
     v.iter().map(|b| b.to_string()).collect()
@@ -652,6 +762,22 @@ pub fn expand(st: &Step, c: &mut Counters) -> Vec<Step> {
             String::new(),
         ] {
             push(c, "enum:json_framing", s.into_bytes());
+        }
+        // the record re-encoded as text, as a human-readable format or a lenient hand-written visitor might accept it
+        let hexs: String = v.0.iter().map(|b| format!("{:02x}", b)).collect();
+        let latin: String = v.0.iter().map(|b| format!("\\u00{:02x}", b)).collect();
+        for s in [
+            format!("\"{}\"", hexs),
+            format!("\"{}\"", hexs.to_uppercase()),
+            format!("\"0x{}\"", hexs),
+            format!("\"{}\"", base64(&v.0)),
+            format!("\"{}\"", latin),
+            format!("[\"{}\"]", hexs),
+            format!("{{\"bytes\":{}}}", inner),
+            format!("[{}]", v.0.iter().map(|b| format!("\"{}\"", b)).collect::<Vec<_>>().join(",")),
+            format!("[{}]", v.0.iter().map(|b| format!("{}.0", b)).collect::<Vec<_>>().join(",")),
+        ] {
+            push(c, "enum:json_text_form", s.into_bytes());
         }
     }
     // the record overwritten by another well-formed record whose payload is a boundary value of the
